@@ -197,6 +197,175 @@ theorem choose_stream (t : Tx) (fuel : Nat) : ∀ (n : Nat) (ld lp : List E) (c 
           rw [hnext]
           exact ih rest (p :: lp') _ (by simp at hn hlen ⊢; omega) (by simp at hlen; omega) hfw' d3 ⟨p1, p2, p3⟩
 
+
+/-! ### backward walks (mirror image: `Prev`, descending lists) -/
+
+/-- the iterator stands on the head of the DESCENDING list `l`, and `Prev` walks the rest -/
+def BStream {α : Type} [ItOps α] : α → List E → Prop
+  | it, [] => ItOps.key it = none
+  | it, e :: l => ItOps.key it = some e.1 ∧ ItOps.value it = some e.2 ∧ BStream (ItOps.prev it).1 l
+
+/-- ordered merge of the snapshot side `ld` (entries shadowed by the transaction dropped) with the
+    pending side `lp`; lists in DESCENDING key order (a backward walk) -/
+def mergeB (sh : Bytes → Bool) : List E → List E → List E
+  | [], lp => lp
+  | d :: ld, lp =>
+    if sh d.1 then mergeB sh ld lp else
+    match lp with
+    | [] => d :: mergeB sh ld []
+    | p :: lp' => if compare d.1 p.1 == Ordering.lt then p :: mergeB sh (d :: ld) lp' else d :: mergeB sh ld (p :: lp')
+termination_by ld lp => ld.length + lp.length
+
+theorem mergeB_cons (sh : Bytes → Bool) (d : E) (ld lp : List E) :
+    mergeB sh (d :: ld) lp =
+      if sh d.1 then mergeB sh ld lp else
+      match lp with
+      | [] => d :: mergeB sh ld []
+      | p :: lp' => if compare d.1 p.1 == Ordering.lt then p :: mergeB sh (d :: ld) lp' else d :: mergeB sh ld (p :: lp') := by
+  conv => lhs; unfold mergeB
+
+
+/-- the cursor stands on the head of `l` and `Prev` walks the rest -/
+def CBStream (t : Tx) (fuel : Nat) : Cursor δ π → List E → Prop
+  | c, [] => c.rawKey = none
+  | c, e :: l => c.rawKey = some e.1 ∧ c.rawValue = some e.2 ∧ CBStream t fuel (c.prev t fuel).1 l
+
+
+theorem skip_go_spec_back (t : Tx) : ∀ (ld : List E) (d : δ) (fuel : Nat), BStream d ld → ld.length < fuel →
+    BStream (Cursor.skip.go t false fuel d) (ld.dropWhile fun e => shadow t e.1) := by
+  intro ld
+  induction ld with
+  | nil =>
+    intro d fuel hs _
+    cases fuel with
+    | zero => simpa [Cursor.skip.go] using hs
+    | succ f =>
+      simp only [BStream] at hs
+      simp [Cursor.skip.go, hs, BStream]
+  | cons e ld ih =>
+    intro d fuel hs hf
+    cases fuel with
+    | zero => simp at hf
+    | succ f =>
+      obtain ⟨h1, h2, h3⟩ := hs
+      simp only [Cursor.skip.go, h1, List.dropWhile_cons]
+      by_cases hsh : shadow t e.1 = true
+      · have : (has t.premoves e.1 || has t.pkeys e.1) = true := hsh
+        simp only [this, if_true, hsh]
+        exact ih _ f h3 (by simp at hf; omega)
+      · have : (has t.premoves e.1 || has t.pkeys e.1) = false := by simpa [shadow] using hsh
+        simp only [this, Bool.false_eq_true, if_false, hsh]
+        exact ⟨h1, h2, h3⟩
+
+theorem mergeB_dropWhile (sh : Bytes → Bool) (ld lp : List E) :
+    mergeB sh ld lp = mergeB sh (ld.dropWhile fun e => sh e.1) lp := by
+  induction ld with
+  | nil => rfl
+  | cons d ld ih =>
+    by_cases h : sh d.1 = true
+    · rw [mergeB_cons]; simp only [h, if_true, List.dropWhile_cons]; exact ih
+    · simp [List.dropWhile_cons, h]
+
+/-- **forward walk.**  With the transaction unchanged during the walk: if the snapshot-side iterator
+    walks `ld`, the pending-side iterator walks `lp`, and the cursor is in forward mode, then after
+    `chooseIterator(true)` the cursor walks `mergeB (shadow t) ld lp`. -/
+theorem choose_stream_back (t : Tx) (fuel : Nat) : ∀ (n : Nat) (ld lp : List E) (c : Cursor δ π),
+    ld.length + lp.length ≤ n → ld.length < fuel → c.fwd = false →
+    BStream c.db ld → BStream c.pend lp →
+    CBStream t fuel (c.choose t false fuel).1 (mergeB (shadow t) ld lp) := by
+  intro n
+  induction n with
+  | zero =>
+    intro ld lp c hn hf hfw hd hp
+    have h1 : ld = [] := by cases ld <;> simp_all
+    have h2 : lp = [] := by cases lp <;> simp_all
+    subst h1 h2
+    simp only [BStream] at hd hp
+    have hsk : ItOps.key (c.skip t false fuel).db = none := by
+      have := skip_go_spec_back t [] c.db fuel (by simpa [BStream] using hd) hf
+      simpa [BStream, Cursor.skip] using this
+    simp only [mergeB, CBStream, Cursor.choose, hsk]
+    have hp' : ItOps.key (c.skip t false fuel).pend = none := by simpa [Cursor.skip] using hp
+    simp [hp', Cursor.rawKey]
+  | succ n ih =>
+    intro ld lp c hn hf hfw hd hp
+    -- position of the snapshot side after skipping shadowed entries
+    have hsk := skip_go_spec_back t ld c.db fuel hd hf
+    rw [mergeB_dropWhile]
+    generalize hld' : (ld.dropWhile fun e => shadow t e.1) = ld' at hsk ⊢
+    have hlen : ld'.length ≤ ld.length := by
+      rw [← hld']; exact dropWhile_length_le _ _
+    have hhead : ∀ d rest, ld' = d :: rest → shadow t d.1 = false := by
+      intro d rest he
+      exact dropWhile_head_false (fun e : E => shadow t e.1) ld d rest (by rw [hld', he])
+    -- the cursor after skipping
+    have hdb : (c.skip t false fuel).db = Cursor.skip.go t false fuel c.db := rfl
+    have hpend : (c.skip t false fuel).pend = c.pend := rfl
+    have hfw' : (c.skip t false fuel).fwd = false := hfw
+    generalize hc' : c.skip t false fuel = c' at hdb hpend hfw'
+    rw [← hdb] at hsk
+    unfold Cursor.choose
+    simp only [hc']
+    cases ld' with
+    | nil =>
+      simp only [BStream] at hsk
+      cases lp with
+      | nil =>
+        simp only [BStream] at hp
+        rw [← hpend] at hp
+        simp [hsk, hp, mergeB, CBStream, Cursor.rawKey]
+      | cons p lp' =>
+        obtain ⟨p1, p2, p3⟩ := hp
+        rw [← hpend] at p1 p2 p3
+        simp only [hsk, p1, mergeB, CBStream]
+        refine ⟨by simp [Cursor.rawKey, p1], by simp [Cursor.rawValue, p2], ?_⟩
+        -- next: the pending side steps
+        have hnext : ({ c' with cur := some false } : Cursor δ π).prev t fuel =
+            ({ c' with cur := some false, pend := (ItOps.prev c'.pend).1 } : Cursor δ π).choose t false fuel := by
+          simp [Cursor.prev, hfw']
+        rw [hnext]
+        have := ih [] lp' ({ c' with cur := some false, pend := (ItOps.prev c'.pend).1 } : Cursor δ π)
+          (by simp at hn ⊢; omega) (by omega) hfw' (by simpa [BStream] using hsk) p3
+        simpa [mergeB] using this
+    | cons d rest =>
+      have hnsh := hhead d rest rfl
+      obtain ⟨d1, d2, d3⟩ := hsk
+      cases lp with
+      | nil =>
+        simp only [BStream] at hp
+        rw [← hpend] at hp
+        rw [mergeB_cons]
+        simp only [hnsh, Bool.false_eq_true, if_false, d1, hp, CBStream]
+        refine ⟨by simp [Cursor.rawKey, d1], by simp [Cursor.rawValue, d2], ?_⟩
+        have hnext : ({ c' with cur := some true } : Cursor δ π).prev t fuel =
+            ({ c' with cur := some true, db := (ItOps.prev c'.db).1 } : Cursor δ π).choose t false fuel := by
+          simp [Cursor.prev, hfw']
+        rw [hnext]
+        exact ih rest [] _ (by simp at hn hlen ⊢; omega) (by simp at hlen; omega) hfw' d3 (by simpa [BStream] using hp)
+      | cons p lp' =>
+        obtain ⟨p1, p2, p3⟩ := hp
+        rw [← hpend] at p1 p2 p3
+        rw [mergeB_cons]
+        simp only [hnsh, Bool.false_eq_true, if_false, d1, p1, Bool.true_and, Bool.not_true, Bool.false_and, Bool.or_false, Bool.false_or, Bool.not_false]
+        by_cases hgt : (compare d.1 p.1 == Ordering.lt) = true
+        · simp only [hgt, if_true, CBStream]
+          refine ⟨by simp [Cursor.rawKey, p1], by simp [Cursor.rawValue, p2], ?_⟩
+          have hnext : ({ c' with cur := some false } : Cursor δ π).prev t fuel =
+              ({ c' with cur := some false, pend := (ItOps.prev c'.pend).1 } : Cursor δ π).choose t false fuel := by
+            simp [Cursor.prev, hfw']
+          rw [hnext]
+          have := ih (d :: rest) lp' ({ c' with cur := some false, pend := (ItOps.prev c'.pend).1 } : Cursor δ π)
+            (by simp at hn hlen ⊢; omega) (by simp at hlen ⊢; omega) hfw' ⟨d1, d2, d3⟩ p3
+          exact this
+        · simp only [hgt, Bool.false_eq_true, if_false, CBStream]
+          refine ⟨by simp [Cursor.rawKey, d1], by simp [Cursor.rawValue, d2], ?_⟩
+          have hnext : ({ c' with cur := some true } : Cursor δ π).prev t fuel =
+              ({ c' with cur := some true, db := (ItOps.prev c'.db).1 } : Cursor δ π).choose t false fuel := by
+            simp [Cursor.prev, hfw']
+          rw [hnext]
+          exact ih rest (p :: lp') _ (by simp at hn hlen ⊢; omega) (by simp at hlen; omega) hfw' d3 ⟨p1, p2, p3⟩
+
+
 /-! ### the same for `dbCacheIterator` (leveldb snapshot merged with the cache treap) -/
 
 def shadowC (it : CacheIt) (k : Bytes) : Bool := has it.sr k || has it.sk k
